@@ -268,7 +268,7 @@ def run_forked(world, program, timeout=None, verbose=False):
 def _worker(world, prop, seed, tier, w, W, nruns, deadline, wfd, max_fail):
     agg = {"runs": 0, "nontrivial": 0, "cover": set(), "probes": Counter(),
            "faults": Counter(), "steps": 0, "failures": [], "harness": [],
-           "samples": [], "digests": {}, "variants": 0}
+           "samples": [], "digests": {}, "variants": 0, "nt_digests": set()}
     k = w
     while True:
         if nruns is not None and k >= nruns:
@@ -287,6 +287,7 @@ def _worker(world, prop, seed, tier, w, W, nruns, deadline, wfd, max_fail):
                 agg["variants"] += 1
             if res.get("nontrivial"):
                 agg["nontrivial"] += 1
+                agg["nt_digests"].add(str(res.get("digest"))[:10])
             agg["cover"].update(res.get("cover", []))
             agg["probes"].update(res.get("probes", {}))
             agg["faults"].update(res.get("faults", {}))
@@ -308,6 +309,7 @@ def _worker(world, prop, seed, tier, w, W, nruns, deadline, wfd, max_fail):
                 agg["samples"].append(program)
         k += W
     agg["cover"] = sorted(agg["cover"])
+    agg["nt_digests"] = sorted(agg["nt_digests"])
     agg["probes"] = dict(agg["probes"])
     agg["faults"] = dict(agg["faults"])
     data = json.dumps(agg).encode()
@@ -343,7 +345,8 @@ def run_batch(world, prop, seed, tier, nruns=None, budget_s=None, workers=16, ma
         pipes.append((rfd, pid))
     merged = {"runs": 0, "nontrivial": 0, "cover": set(), "probes": Counter(),
               "faults": Counter(), "steps": 0, "failures": [], "harness": [],
-              "samples": [], "digests": {}, "variants": 0, "failures_dropped": 0}
+              "samples": [], "digests": {}, "variants": 0, "failures_dropped": 0,
+              "nt_digests": set()}
     bufs = {rfd: [] for rfd, _ in pipes}
     open_fds = set(bufs)
     while open_fds:
@@ -372,6 +375,7 @@ def run_batch(world, prop, seed, tier, nruns=None, budget_s=None, workers=16, ma
         merged["variants"] += agg["variants"]
         merged["nontrivial"] += agg["nontrivial"]
         merged["cover"].update(agg["cover"])
+        merged["nt_digests"].update(agg["nt_digests"])
         merged["probes"].update(agg["probes"])
         merged["faults"].update(agg["faults"])
         merged["steps"] += agg["steps"]
